@@ -254,3 +254,54 @@ def gen_mime(rng, depth=0, maxdepth=None, bad=True):
 def gen_mime_message(rng):
     pre = b''.join(k + b': ' + v + b'\n' for k, v in [(b'From', b'a@b'), (b'Subject', rng.choice(WORDS))][:rng.randrange(3)])
     return pre + gen_mime(rng)
+
+
+# ---- well-formed MIME trees with ground truth ---------------------------------------------------------------
+def gen_tree(rng, depth, maxdepth, bad=False):
+    """('leaf', ctype, enc, raw) | ('multi', subtype, boundary, [children], preamble, epilogue)"""
+    if depth >= maxdepth or (depth > 0 and rng.randrange(3) == 0):
+        raw = b'\n'.join(rng.choice([b'hello needle', b'plain text', b'<p>html needle</p>', b'caf\xc3\xa9', b'x=y', b'line']) for _ in range(rng.randrange(1, 4))) + b'\n'
+        ctype = rng.choice([b'text/plain', b'text/plain; charset=utf-8', b'text/html', b'application/octet-stream', None])
+        enc = rng.choice([None, b'base64', b'quoted-printable', b'7bit', b'8bit'])
+        if bad and rng.randrange(bad if bad is not True else 12) == 0:
+            return ('leaf', ctype, b'base64', None)          # raw None: undecodable base64
+        return ('leaf', ctype, enc, raw)
+    b = b'bnd%d%s' % (depth, rng.choice([b'', b'x', b'_=', b'-']))
+    n = rng.choice([1, 2, 2, 3, 5, 20 if depth == 0 else 2])
+    kids = [gen_tree(rng, depth + 1, maxdepth, bad) for _ in range(n)]
+    return ('multi', rng.choice([b'mixed', b'alternative', b'related']), b, kids,
+            b'preamble\n' if rng.randrange(3) == 0 else b'', b'epilogue\n' if rng.randrange(3) == 0 else b'')
+
+
+def render_tree(t, rng):
+    if t[0] == 'leaf':
+        _, ctype, enc, raw = t
+        hs = []
+        if ctype is not None:
+            hs.append(b'Content-Type: ' + ctype)
+        if enc is not None:
+            hs.append(b'Content-Transfer-Encoding: ' + enc)
+        body = encode_body(rng, raw, enc) if raw is not None else rng.choice([b'@@@AAAA\n', b'this*is*not*base64\n', b'QUJD!\n'])
+        if not body.endswith(b'\n'):
+            body += b'=\n'            # quoted-printable: the final newline was written as =0A; a soft break ends the line
+        return b''.join(h + b'\n' for h in hs) + b'\n' + body
+    _, sub, b, kids, pre, epi = t
+    out = b'Content-Type: multipart/' + sub + b'; boundary="' + b + b'"\n\n' + pre
+    for k in kids:
+        out += b'--' + b + b'\n' + render_tree(k, rng)
+    out += b'--' + b + b'--\n' + epi
+    return out
+
+
+def flatten_tree(t):
+    """ground truth: the parts below the root in pre-order (a nested multipart appears itself, then its parts)"""
+    out = []
+    if t[0] == 'multi':
+        for k in t[3]:
+            out.append(k)
+            out += flatten_tree(k)
+    return out
+
+
+def tree_depth(t):
+    return 0 if t[0] == 'leaf' else 1 + max(tree_depth(k) for k in t[3])
